@@ -279,7 +279,7 @@ PROPS['C20'] = dict(
 )
 
 PROPS['C03'] = dict(
-    units=['k_tok'], level='proof', design_ref='6/C03',
+    units=['k_tok', 'k_dec'], level='proof', design_ref='6/C03',
     technique='CBMC dfcc function contracts with loop contracts on MessageBase::extract_element(const char*, unsigned, char*, char*) and extract_element_fixed_width (clang AST of message.hpp), '
               'and the three tokeniser calls of MessageBase::extract_header checked against the callee contract with --replace-call-with-contract (call-site precondition obligations)',
     text='Tokeniser safety (proved, unbounded in the input length up to 8192 by loop contracts): given output buffers of input length + 1 bytes, extract_element reads only inside the input, writes only '
@@ -296,7 +296,7 @@ PROPS['C03'] = dict(
 )
 
 PROPS['C06'] = dict(
-    units=['k_tok'], level='proof', design_ref='6/C06',
+    units=['k_tok', 'k_dec'], level='proof', design_ref='6/C06',
     technique='CBMC dfcc function + loop contract on MessageBase::extract_element_fixed_width (clang AST of message.hpp) with a k-witness memcpy model',
     text='Decoder side of the fixed-width extraction only: for every input, tag length and declared data length (all up to 8192) a non-zero result is exactly tag + 1 + data length + 1, the data '
          'lies inside the input, and every data byte is copied to the value buffer unchanged WHATEVER it is (SOH, "=", anything; ghost witness index), followed by a terminator. '
